@@ -82,7 +82,8 @@ def rows_of(df, cols=None):
     if df is None:
         return None
     cols = list(df.columns) if cols is None else list(cols)
-    arrs = [df[c].tolist() for c in cols]
+    # a declared component without a column in the returned data must surface as a mismatch, not crash the monitor
+    arrs = [df[c].tolist() if c in df.columns else ["<column missing in returned data>"] * len(df) for c in cols]
     return [tuple(norm(a[i]) for a in arrs) for i in range(len(df))]
 
 
